@@ -194,6 +194,14 @@ Theorem C14_pinned_drops_value :
 Proof. exact pinned_drops_value. Qed.
 Print Assumptions C14_pinned_drops_value.
 
+(** It differs from the intended rule only where the later operand provides a falsy value:
+    when everything the later operand provides is truthy, both rules give the same outcome
+    (which is why an example with truthy values does not notice). *)
+Theorem C14_pinned_agrees_on_truthy : forall x ow y,
+  all_truthy y = true -> merge_pinned ow x y = merge ow x y.
+Proof. exact pinned_agrees. Qed.
+Print Assumptions C14_pinned_agrees_on_truthy.
+
 (** ** Non-vacuity *)
 
 (** Falsy values survive a merge with the empty partial on either side, lists are
